@@ -112,6 +112,14 @@ Proof.
 Qed.
 Print Assumptions C02_node_scoping.
 
+(* The rule shared by every metadata carrier (model, graph, node, function, tensor, value-info, quantization
+   parameters): a dictionary read from entries with unique keys and written back sorted is the sorted
+   original — nothing lost, nothing duplicated. *)
+Theorem C02_metadata_every_carrier :
+  forall m : dict, wf_dict m = true -> ksort (ksort (dict_of m)) = ksort m /\ dict_of m = m.
+Proof. intros m H. split; [apply ksort_dict_of; exact H | apply dict_of_nodup; exact H]. Qed.
+Print Assumptions C02_metadata_every_carrier.
+
 (* What is proved of C02_roundtrip: every message kind below the graph level round-trips for ALL
    well-formed inputs (tensors, value-info with nested types/shapes/denotations, and — relative to
    the nested graphs — attributes of every kind and nodes in a scope stack).
